@@ -30,6 +30,16 @@ def load_mutants():
     return mod.MUTANTS
 
 
+def load_transforms():
+    """whole-tree behaviour-preserving transformations (droopsa/transform.py): every claimed property must stay silent"""
+    from droopsa.props import PROPS
+    out = []
+    for pid in sorted(PROPS):
+        for t in ('alpha', 'alpha-locals', 'alpha-funcs', 'reformat'):
+            out.append(dict(id='twin-%s-%s' % (t, pid), prop=pid, rule=None, expect='silent', transform=t))
+    return out
+
+
 def load_seeded():
     """the independently written breaking changes under /verif/seeded: each must be reported under its own property"""
     import json
@@ -67,6 +77,27 @@ def _run_one(m):
     res = dict(id=m['id'], prop=m['prop'], rule=m['rule'], expect=m['expect'])
     try:
         _copy_repo(tmp)
+        if m.get('transform'):
+            from droopsa import transform
+            from droopsa.report import load_known
+            if m['transform'] == 'reformat':
+                transform.reformat_tree(tmp)
+            else:
+                transform.alpha_tree(tmp, do_funcs=m['transform'] != 'alpha-locals', do_locals=m['transform'] != 'alpha-funcs')
+            code, ctx, violations, known, error = run_property(m['prop'], 'quick', only=None, repo_root=tmp, quiet=True, write=False)
+            # a recorded finding is keyed by the literal statement: after renaming it is reported again as a violation (it is one);
+            # anything else reported on a behaviour-preserving transformation is a false alarm
+            kf = [(k.get('rule'), k['key'].get('file'), k['key'].get('function')) for k in load_known().get('findings', [])
+                  if m['prop'] in (k.get('properties') or [k.get('property')])]
+            extra = [o for o in violations if (o.rule, o.file, o.func) not in kf]
+            if error or code == 2:
+                res['outcome'] = 'false-alarm(refused: %s)' % (error or '')[:200]
+            elif extra:
+                res['outcome'] = 'false-alarm(exit %d)' % code
+                res['detail'] = '; '.join('%s %s:%s %s' % (o.rule, o.file, o.line, o.how[:100]) for o in extra[:4])
+            else:
+                res['outcome'] = 'silent'
+            return res
         if m.get('patch'):
             import subprocess
             r = subprocess.run(['patch', '-p1', '-s', '-d', tmp, '-i', m['patch']], stdout=subprocess.PIPE, stderr=subprocess.STDOUT, text=True)
@@ -137,7 +168,7 @@ def run(mutants, jobs=16):
 
 
 def run_for_property(pid):
-    ms = [m for m in load_mutants() + load_seeded() if m['prop'] == pid]
+    ms = [m for m in load_mutants() + load_seeded() + load_transforms() if m['prop'] == pid]
     t0 = time.time()
     rs = run(ms)
     return dict(mutants=len(rs),
@@ -151,9 +182,10 @@ def run_for_property(pid):
 
 
 def main(args, strict=False):
-    ms = load_mutants() + load_seeded()
+    ms = load_mutants() + load_seeded() + load_transforms()
     if args:
-        ms = [m for m in ms if m['prop'] in args or m['rule'] in args or m['id'] in args or (args == ['seeded'] and m['id'].startswith('seeded-'))]
+        ms = [m for m in ms if m['prop'] in args or m['rule'] in args or m['id'] in args or (args == ['seeded'] and m['id'].startswith('seeded-'))
+              or (args == ['twins'] and m.get('transform'))]
     rs = run(ms)
     bad = 0
     for r in rs:
